@@ -7,20 +7,21 @@ import framework as fw
 sys.path.insert(0, os.path.dirname(os.path.abspath(__file__)))
 from framework import REPO
 
-TIE = ["Nsq.Tie.ToolsToFile"]
-PROPS = ["Nsq.Props.C19"]
+TIE = ["Nsq.Tie.ToolsToFile", "Nsq.Tie.ToolsToFileFn"]
+PROPS = ["Nsq.Props.C19", "Nsq.Props.C19Name", "Nsq.Props.C19Disc", "Nsq.Props.C19Ops"]
 CORPUS = os.path.join(fw.ROOT, "corpus", "C19")
+HARNESS = ["e8/tofile_test.go", "e8/tofile_names_test.go", "e8/tofile_disc_test.go", "e8/tofile_xdev_test.go", "e8/tofile_giveup_test.go", "e8/stub_nsqd.go"]
 
 
 def build_pair(ctx):
     """The harness is built twice: `tofile` (real clock: generates scripts, runs the children,
     evaluates the oracles) and `tofilechild` (-tags faketime, cgo off: the real router on the Go
     runtime's deterministic fake clock)."""
-    parent = ctx.go_test_binary("apps/nsq_to_file", ["e8/tofile_test.go", "e8/stub_nsqd.go"], "e8tofile", pkgname="main")
+    parent = ctx.go_test_binary("apps/nsq_to_file", HARNESS, "e8tofile", pkgname="main")
     old = fw.GOENV["CGO_ENABLED"]
     fw.GOENV["CGO_ENABLED"] = "0"   # the fake clock only advances when deadlock detection works (no cgo threads)
     try:
-        child = ctx.go_test_binary("apps/nsq_to_file", ["e8/tofile_test.go", "e8/stub_nsqd.go"], "e8tofilechild", pkgname="main",
+        child = ctx.go_test_binary("apps/nsq_to_file", HARNESS, "e8tofilechild", pkgname="main",
                                    tags="verif,faketime")
     finally:
         fw.GOENV["CGO_ENABLED"] = old
@@ -104,6 +105,7 @@ def run(ctx):
                 "that finished a message, changed a file or ended the process")
     # 1-2: regenerate, build, audit
     ctx.gen("e8_tools")
+    ctx.gen("e8_tofile_fn")
     built = []
     for mod in TIE + PROPS:
         ok, log = ctx.lean_build([mod])
@@ -162,6 +164,8 @@ def run(ctx):
                 if l.startswith("HIST "):
                     _, k, v = l.split()
                     hist[k] = int(v)
+            cc = sorted(set(o.split()[-1] for o in ops if o.startswith("tf conf") and len(o.split()) == 10))
+            ctx.corr["close_clears_out_probe"] = cc   # ["0"]: tree before fix F44, ["1"]: with it (model parameter Cfg.closeClears)
             ctx.corr.setdefault("runs", []).append({"label": label, "histogram": hist,
                                                      "oracle": [l for l in log.splitlines() if l.startswith("ORACLE-DONE")]})
             for o, i in list(zip(ops, impl))[1:6]:
@@ -209,25 +213,13 @@ def run(ctx):
             ctx.corr.setdefault("syscall_leg", []).append({"label": label, "traces": nst, "fins": nfin})
             if label == "gen" and nst and nfin == 0:
                 corr_broken.append("syscall leg saw no FIN marker")
-    # known finding replay: the tool as shipped (router behind go-nsq's handlerLoop, max_attempts 5)
     if parent and not ctx.replay_in:
-        rc, log = ctx.run_cmd([parent, "-test.run", "^TestVerifToFileGiveUp$", "-test.count=1"], timeout=120)
-        rows = [dict(kv.split("=") for kv in l.split()[1:]) for l in log.splitlines() if l.startswith("GIVEUP ")]
-        if len(rows) < 4:
-            ctx.log("give-up replay did not run:\n" + log[-800:])
-            corr_broken.append("give-up replay (TestVerifToFileGiveUp)")
-        ctx.corr["give_up"] = rows
-        for r in rows:
-            mx, att = int(r["max_attempts"]), int(r["attempts"])
-            ctx.evaluations += 1
-            model_gives_up = mx > 0 and att > mx      # Nsq.Model.ToFile.shouldFail
-            observed = (r["response"] == "FIN" and r["written_at_response"] == "false")
-            if observed != model_gives_up or r["response"] != "FIN":
-                corr_broken.append("correspondence give-up rule attempts=%d: %s" % (att, r))
-            if observed:
-                ctx.violation("gives-up-after-max-attempts",
-                              "nsq_to_file finished a message (attempts=%d, max_attempts=%d) that it never wrote" % (att, mx),
-                              "tool=nsq_to_file max_attempts=%d attempts=%d\n" % (mx, att))
+        names_leg(ctx, parent, corr_broken)
+        disc_leg(ctx, parent, corr_broken)
+        xdev_leg(ctx, parent, corr_broken)
+    # known finding replay on the REAL binary: the tool as shipped (router behind go-nsq's handlerLoop)
+    if parent and not ctx.replay_in:
+        giveup_leg(ctx, parent, corr_broken)
     # end-to-end leg (thorough): real binaries, real nsqd, signals at random instants, strace
     if ctx.thorough() and not ctx.replay_in:
         import c19_e2e
@@ -236,6 +228,255 @@ def run(ctx):
         ctx.broken_without_input(ctx.broken_ties + corr_broken,
                                  "search: %d generated events through the real router with the readable-at-FIN, "
                                  "end-state, no-overwrite and fsync-before-FIN oracles found no failing input" % ctx.evaluations)
+
+
+def _unhex(h):
+    return b"" if h == "-" else bytes.fromhex(h)
+
+
+def py_names(op):
+    """independent oracle for the file-name functions: Python's bytes.replace has the semantics of
+    strings.Replace(…, -1) for a non-empty pattern"""
+    w = op.split()
+    if w[1] == "cff":
+        hi, ff, gz, rs, ri, wd, od, tp, hk, hn, pid = w[2:13]
+        hi, ff, wd, od, tp, hn, pid = map(_unhex, (hi, ff, wd, od, tp, hn, pid))
+        if hk == "err":
+            return "err " + (hn.hex() or "-")
+        short = hn.split(b".")[0]
+        ident = short
+        if hi:
+            ident = hi.replace(b"<SHORT_HOST>", short).replace(b"<HOSTNAME>", hn)
+        need = gz == "1" or int(rs) > 0 or int(ri) > 0 or wd != od
+        if need:
+            if b"<REV>" not in ff:
+                return "err " + b"missing <REV> in --filename-format when gzip, rotation, or work dir enabled".hex()
+        else:
+            ff = ff.replace(b"<REV>", b"")
+        ff = ff.replace(b"<TOPIC>", tp).replace(b"<HOST>", ident).replace(b"<PID>", pid)
+        if gz == "1" and not ff.endswith(b".gz"):
+            ff += b".gz"
+        return "ok %s rev=%d" % (ff.hex() or "-", 1 if b"<REV>" in ff else 0)
+    if w[1] == "cfn":
+        return _unhex(w[2]).replace(b"<DATETIME>", _unhex(w[3])).hex() or "-"
+    return "?"
+
+
+def names_leg(ctx, parent, corr_broken):
+    """computeFilenameFormat / currentFilename: real functions vs the Lean model (which is proved equal to
+    their go2lean translation) vs an independent Python rendering; direct oracles in the harness."""
+    out = os.path.join(ctx.work, "tf_names")
+    os.makedirs(out, exist_ok=True)
+    rc, log = ctx.run_cmd([parent, "-test.run", "^TestVerifToFileNames$", "-test.count=1"], timeout=300,
+                          env={"VERIF_SEED": ctx.seed, "VERIF_N": ctx.budget(600, 6000), "VERIF_OUT": out})
+    if rc != 0 or "ORACLE-DONE names" not in log:
+        ctx.log("names harness failed:\n" + log[-1500:])
+        corr_broken.append("names harness exit %s" % rc)
+        return
+    ops = open(os.path.join(out, "tfnames.ops")).read().splitlines()
+    impl = open(os.path.join(out, "tfnames.impl")).read().splitlines()
+    rc, mout = ctx.driver("e8", stdin_path=os.path.join(out, "tfnames.ops"))
+    model = mout.splitlines()
+    hist = {}
+    for l in log.splitlines():
+        if l.startswith("HIST "):
+            _, k, v = l.split()
+            hist[k] = int(v)
+        if l.startswith("ORACLE-FAIL names"):
+            m = re.match(r"ORACLE-FAIL names case=(\d+) (.*)", l)
+            ctx.violation("tofile-names:" + "-".join(re.sub(r"[^a-z ]", "", re.sub(r'"[^"]*"', "", m.group(2).lower())).split()[:6]),
+                          "nsq_to_file file names: " + m.group(2), l + "\n")
+    ctx.corr["names"] = {"ops": len(ops), "histogram": hist}
+    for o, i in zip(ops, impl):
+        ctx.count_case(o + "|" + i, nontrivial=True)
+        want = py_names(o)
+        ctx.evaluations += 1
+        if want != i:
+            # the implementation's own answer decides: a rotating configuration without <REV>, or a lost <REV>
+            w = o.split()
+            what = "computeFilenameFormat/currentFilename answered %s, an independent rendering of the documented substitution gives %s" % (i[:120], want[:120])
+            bad = i.startswith("ok ") and want.startswith("err ")
+            bad = bad or (i.startswith("ok ") and i.endswith("rev=0") and want.endswith("rev=1"))
+            bad = bad or (w[1] == "cfn" and b"<REV>" in _unhex(want) and b"<REV>" not in _unhex(i))
+            if bad:
+                ctx.violation("tofile-names:" + w[1], "nsq_to_file file names: " + what, o + "\n")
+            else:
+                corr_broken.append("names oracle (python) " + w[1])
+                ctx.log("names: " + what + "\n   op=" + o[:200])
+    for idx, a, b in ctx.diff_lines(impl, model, "tofile-names"):
+        ctx.log("model/impl disagree on `%s`:\n   impl =%s\n   model=%s" % (ops[idx][:160], a[:200], b[:200]))
+        corr_broken.append("correspondence names op %s" % ops[idx].split()[1])
+    for o, i in list(zip(ops, impl))[:3]:
+        ctx.add_sample({"op": o[:160], "impl": i[:160]})
+
+
+def disc_leg(ctx, parent, corr_broken):
+    """TopicDiscoverer: the real run() against a scripted stub lookupd vs the Lean model; direct oracles in the
+    harness (exactly the allowed+creatable topics have a logger; after SIGTERM run() returns, every logger was
+    told to terminate, stopped its consumer and closed its file)."""
+    out = os.path.join(ctx.work, "tf_disc")
+    os.makedirs(out, exist_ok=True)
+    rc, log = ctx.run_cmd([parent, "-test.run", "^TestVerifToFileDiscover$", "-test.count=1", "-test.timeout=0"],
+                          timeout=ctx.budget(400, 1500),
+                          env={"VERIF_SEED": ctx.seed, "VERIF_N": ctx.budget(40, 400), "VERIF_OUT": out})
+    if rc != 0 or "ORACLE-DONE disc" not in log:
+        ctx.log("discoverer harness failed:\n" + log[-1500:])
+        corr_broken.append("discoverer harness exit %s" % rc)
+        return
+    ops = open(os.path.join(out, "tfdisc.ops")).read().splitlines()
+    impl = open(os.path.join(out, "tfdisc.impl")).read().splitlines()
+    rc, mout = ctx.driver("e8", stdin_path=os.path.join(out, "tfdisc.ops"))
+    model = mout.splitlines()
+    model = [("*" if i < len(impl) and impl[i] == "*" else m) for i, m in enumerate(model)]   # unobserved intermediate polls
+    hist = {}
+    for l in log.splitlines():
+        if l.startswith("HIST "):
+            _, k, v = l.split()
+            hist[k] = int(v)
+        if l.startswith("ORACLE-FAIL disc"):
+            m = re.match(r"ORACLE-FAIL disc case=(\d+) (.*)", l)
+            c = int(m.group(1))
+            # the ops of that case are the replay
+            starts = [i for i, o in enumerate(ops) if o.startswith("td new")]
+            seg = ops[starts[c]:(starts[c + 1] if c + 1 < len(starts) else len(ops))] if c < len(starts) else []
+            ctx.violation("tofile-disc:" + "-".join(re.sub(r"[^a-z ]", "", re.sub(r'"[^"]*"', "", m.group(2).lower())).split()[:6]),
+                          "nsq_to_file TopicDiscoverer: " + m.group(2), "\n".join(seg) + "\n")
+    ctx.corr["discoverer"] = {"ops": len(ops), "histogram": hist}
+    for o, i in zip(ops, impl):
+        if i != "*":
+            ctx.count_case(o + "|" + i, nontrivial=not o.startswith("td new"))
+    for idx, a, b in ctx.diff_lines(impl, model, "tofile-disc"):
+        ctx.log("model/impl disagree on `%s`:\n   impl =%s\n   model=%s" % (ops[idx][:160], a[:200], b[:200]))
+        corr_broken.append("correspondence discoverer op %s" % ops[idx].split()[1])
+        if ops[idx].startswith("td term") and a.startswith("returned=1"):
+            # run() returned although a logger was not terminated / stopped: a logger left behind
+            ctx.violation("tofile-disc:term", "nsq_to_file TopicDiscoverer after SIGTERM: " + a + " (model: " + b + ")", ops[idx] + "\n")
+    for o, i in list(zip(ops, impl))[1:4]:
+        ctx.add_sample({"op": o[:160], "impl": i[:160]})
+
+
+def xdev_leg(ctx, parent, corr_broken):
+    """work dir on another device (link fails with EXDEV → os.Exit(1), fail-stop after the FINs, nothing moved or
+    lost, restart keeps the stranded file) and every --gzip-level 1..9 (decodable output): direct oracles on the
+    real router in child processes."""
+    out = os.path.join(ctx.work, "tf_xdev")
+    os.makedirs(out, exist_ok=True)
+    rc, log = ctx.run_cmd([parent, "-test.run", "^TestVerifToFileXdev$", "-test.count=1", "-test.timeout=0"], timeout=600,
+                          env={"VERIF_SEED": ctx.seed, "VERIF_OUT": out})
+    if rc != 0 or "ORACLE-DONE xdev" not in log:
+        ctx.log("xdev harness failed:\n" + log[-1500:])
+        corr_broken.append("xdev harness exit %s" % rc)
+        return
+    ctx.corr["xdev_gzip_level"] = [l for l in log.splitlines() if l.startswith(("XDEV", "ORACLE-DONE xdev"))]
+    if "XDEV available=false" in log:
+        ctx.log("note: /dev/shm is not a separate file system here; the cross-device leg was skipped")
+    for l in log.splitlines():
+        if l.startswith("ORACLE-FAIL xdev"):
+            what = l[len("ORACLE-FAIL xdev "):]
+            ctx.violation("tofile-xdev:" + "-".join(re.sub(r"[^a-z ]", "", re.sub(r'"[^"]*"', "", what.lower())).split()[:6]),
+                          "nsq_to_file (work dir on another device / gzip level): " + what, l + "\n")
+    m = re.search(r"ORACLE-DONE xdev cases=(\d+)", log)
+    for i in range(int(m.group(1)) if m else 0):
+        ctx.count_case("xdev-case-%d" % i, nontrivial=True)
+        ctx.evaluations += 1
+
+
+def default_max_attempts():
+    """what the regenerated Gen module says main() runs the consumer with (go-nsq default unless main assigns it)"""
+    try:
+        txt = open(os.path.join(fw.LEAN, "Nsq", "Gen", "ToolsToFileFn.lean")).read()
+    except OSError:
+        return None
+    lib = re.search(r"def toFileMaxAttempts_lib : Nat := (\d+)", txt)
+    tool = re.search(r"def toFileMaxAttempts_tool : Option Nat := (none|some (\d+))", txt)
+    if not lib or not tool:
+        return None
+    return int(tool.group(2)) if tool.group(2) is not None else int(lib.group(1))
+
+
+def giveup_leg(ctx, parent, corr_broken):
+    """Finding gives-up-after-max-attempts, replayed on the real nsq_to_file binary built from the tree under
+    check. Model: Nsq.Model.ToFile.shouldFail with max_attempts = the regenerated default of main()
+    (Nsq.Gen.ToolsToFileFn.toFileMaxAttempts) or the operator's --consumer-opt. Decision theorem:
+    Props.C19Ops.tool_safe_iff (safe iff max_attempts = 0). On a tree with fix F43 (main sets cfg.MaxAttempts = 0)
+    the default cases must all be written before FIN; without it the known finding reproduces."""
+    binp = os.path.join(fw.BUILD, "bin", "nsq_to_file_%d" % os.getpid())
+    rc, out = fw.sh(["go", "build", "-o", binp, "./apps/nsq_to_file"], cwd=REPO, timeout=900)
+    if rc != 0:
+        ctx.log("go build apps/nsq_to_file failed:\n" + out[-800:])
+        corr_broken.append("nsq_to_file binary does not build")
+        return
+    ctx._bins = getattr(ctx, "_bins", []) + [binp]
+    dmx = default_max_attempts()
+    if dmx is None:
+        corr_broken.append("regenerated default max_attempts not found (Gen/ToolsToFileFn.lean)")
+        return
+    rc, log = ctx.run_cmd([parent, "-test.run", "^TestVerifToFileGiveUpBin$", "-test.count=1", "-test.timeout=0"], timeout=400,
+                          env={"VF_E8_TOFILE_BIN": binp})
+    rows = [dict(kv.split("=", 1) for kv in l.split()[1:]) for l in log.splitlines() if l.startswith("GIVEUPBIN ")]
+    if len(rows) < 9:
+        ctx.log("give-up replay did not run completely:\n" + log[-800:])
+        corr_broken.append("give-up replay (TestVerifToFileGiveUpBin)")
+    ctx.corr["give_up"] = {"default_max_attempts_of_main": dmx, "rows": rows}
+    # --gzip-level outside 1..9 must be refused by the real binary before it consumes anything
+    rc, glog = ctx.run_cmd([parent, "-test.run", "^TestVerifToFileGzipLevelBin$", "-test.count=1", "-test.timeout=0"], timeout=300,
+                           env={"VF_E8_TOFILE_BIN": binp})
+    grows = [dict(kv.split("=", 1) for kv in l.split()[1:]) for l in glog.splitlines() if l.startswith("GZLEVEL ")]
+    ctx.corr["gzip_level_cli"] = grows
+    if len(grows) < 5:
+        corr_broken.append("gzip-level replay (TestVerifToFileGzipLevelBin)")
+    # the other start-up checks of main(): generated argument vectors on the real binary vs Model.ToFileMain.refuses
+    mout_dir = os.path.join(ctx.work, "tf_main")
+    os.makedirs(mout_dir, exist_ok=True)
+    rc, mlog = ctx.run_cmd([parent, "-test.run", "^TestVerifToFileMainBin$", "-test.count=1", "-test.timeout=0"], timeout=600,
+                           env={"VF_E8_TOFILE_BIN": binp, "VERIF_SEED": ctx.seed, "VERIF_OUT": mout_dir, "VERIF_N": ctx.budget(36, 200)})
+    if rc != 0 or "ORACLE-DONE main" not in mlog:
+        ctx.log("main() start-up leg failed:\n" + mlog[-800:])
+        corr_broken.append("main start-up leg exit %s" % rc)
+    else:
+        mops = open(os.path.join(mout_dir, "tfmain.ops")).read().splitlines()
+        mimpl = open(os.path.join(mout_dir, "tfmain.impl")).read().splitlines()
+        rc, mo = ctx.driver("e8", stdin_path=os.path.join(mout_dir, "tfmain.ops"))
+        mh = {}
+        for o, i in zip(mops, mimpl):
+            mh[i] = mh.get(i, 0) + 1
+            ctx.count_case(o + "|" + i, nontrivial=True)
+        ctx.corr["main_startup"] = {"vectors": len(mops), "histogram": mh}
+        for idx, a, b in ctx.diff_lines(mimpl, mo.splitlines(), "tofile-main"):
+            ctx.log("main(): model/impl disagree on `%s`: impl=%s model=%s" % (mops[idx], a, b))
+            corr_broken.append("correspondence main start-up checks")
+            if a == "started" and b == "refused":
+                ctx.violation("tofile-main-accepts-invalid", "nsq_to_file started with an option set its start-up checks (as modelled: "
+                              "Props.C19Disc.started_iff) refuse: " + mops[idx], mops[idx] + "\n")
+            elif a == "refused" and b == "started":
+                ctx.violation("tofile-main-refuses-valid", "nsq_to_file refused an option set its start-up checks (as modelled) accept: "
+                              + mops[idx], mops[idx] + "\n")
+    for g in grows:
+        ctx.evaluations += 1
+        ctx.count_case("gzlevel|%s|%s" % (g["level"], g["started"]), nontrivial=True)
+        if g["started"] == "true" or g["exit"] == "0":
+            ctx.violation("tofile-gzip-level-accepted",
+                          "nsq_to_file started consuming with --gzip --gzip-level=%s (outside 1..9; compress/gzip returns no "
+                          "writer for it): first message -> %s, exit %s" % (g["level"], g["response"], g["exit"]),
+                          "nsq_to_file --gzip --gzip-level=%s ; deliver one message\n" % g["level"])
+    for r in rows:
+        att = int(r["attempts"])
+        mx = dmx if r["cli"] == "default" else int(r["cli"].split(",")[1])
+        ctx.evaluations += 1
+        ctx.count_case("giveup|%s|%d|%s" % (r["cli"], att, r["written_at_response"]), nontrivial=True)
+        model_gives_up = mx > 0 and att > mx      # Nsq.Model.ToFile.shouldFail
+        observed = (r["response"] == "FIN" and r["written_at_response"] == "false")
+        if observed != model_gives_up or r["response"] != "FIN":
+            corr_broken.append("correspondence give-up rule cli=%s attempts=%d: %s" % (r["cli"], att, r))
+        if observed and r["cli"] == "default":
+            if dmx == 0:
+                ctx.violation("gives-up-although-main-sets-max-attempts-0",
+                              "nsq_to_file finished a message (attempts=%d) that it never wrote although main() sets "
+                              "cfg.MaxAttempts = 0" % att, "tool=nsq_to_file cli=default attempts=%d\n" % att)
+            else:
+                ctx.violation("gives-up-after-max-attempts",
+                              "nsq_to_file finished a message (attempts=%d, max_attempts=%d) that it never wrote" % (att, mx),
+                              "tool=nsq_to_file max_attempts=%d attempts=%d\n" % (mx, att))
 
 
 def property_fails_on(impl, model):
